@@ -12,9 +12,16 @@ from inspect import Parameter
 
 import numpy
 
-from .core import (KGChannel, KGChannelDir, KGLambda, KGSym, KlongException,
-                   bknp, is_dict, is_empty, is_list, kg_read_array, kg_write,
+from .core import (KGCall, KGChannel, KGChannelDir, KGLambda, KGSym, KlongException,
+                   bknp, copy_lambda, is_dict, is_empty, is_list, kg_read_array, kg_write,
                    reserved_fn_args, reserved_fn_symbol_map, safe_eq, safe_inspect)
+
+
+def _read_result(klong, a):
+    """A dictionary is read as a deferred literal; .r / .rs return the dictionary itself."""
+    if isinstance(a, KGCall) and a.a is copy_lambda:
+        return klong.call(a)
+    return a
 
 
 def _to_display_value(x, backend):
@@ -757,7 +764,7 @@ def eval_sys_read(klong):
     else:
         i,a = kg_read_array(r, 0, klong._backend, module=klong.current_module(), read_neg=True)
         f.raw.seek(k+i,0)
-        return a
+        return _read_result(klong, a)
 
 
 def eval_sys_read_line(klong):
@@ -805,7 +812,7 @@ def eval_sys_read_string(klong, x):
 
     """
     _, a = kg_read_array(x, 0, klong._backend, module=klong.current_module(), read_neg=True)
-    return a
+    return _read_result(klong, a)
 
 
 def eval_sys_system(x):
